@@ -152,7 +152,9 @@ Expect ==
     [] op = "Zero" -> LET a == pool[Ev.a] IN X(Ev.t, FALSE, Zero(a.d), a.d, a.mut, TRUE, "det")
     [] op = "Copy" -> LET a == pool[Ev.a] IN X(Ev.t, FALSE, a.c, a.d, a.mut, TRUE, "det")
     [] op = "Pickle" -> LET a == pool[Ev.a] IN X(Ev.t, FALSE, a.c, a.d, a.mut, TRUE, "det")
-    [] op \in {"Reload", "Immutable"} -> LET a == pool[Ev.a] IN X(Ev.t, FALSE, a.c, a.d, FALSE, TRUE, "det")
+    [] op \in {"Reload", "Immutable"} ->
+         (* the reloaded container knows what the document says: Forget *)
+         LET a == pool[Ev.a] IN X(Ev.t, FALSE, a.c, Forget(a.d, a.c), FALSE, TRUE, "det")
     [] op \in {"Eq", "Read", "Doc", "CatView", "Grid2D"} -> X(0, FALSE, Absent.c, DummyD, FALSE, FALSE, "pure")
     [] op = "View" ->
          [X(0, FALSE, Absent.c, DummyD, FALSE, FALSE, "pure")
